@@ -900,6 +900,7 @@ func runInproc(b core.Batch, a args, em *core.Emitter) {
 	}
 	sent2, _ := refclient.LoginAs(srv, "10.3.0.2:1", "sguest", "", "S-Guest")
 	total := 0
+	infoProbes := 0
 	for batch := 0; batch < a.Batches; batch++ {
 		id := fmt.Sprintf("%s/batch%d", b.Name, batch)
 		var wg sync.WaitGroup
@@ -925,11 +926,54 @@ func runInproc(b core.Batch, a args, em *core.Emitter) {
 				defer wg.Done()
 				cl.Conn.Send(s)
 				cl.Conn.WaitIdle(refclient.Watchdog)
-				cl.Hangup()
 			}(cl, s)
 			total++
 		}
 		wg.Wait()
+		// while the hostile sessions are still connected (with whatever state their requests left behind: pending
+		// transfers with odd size fields, odd names and icons), the administrator sentinel lists the users and asks for
+		// the client info of every one of them: each of its requests must be answered (a reply or an error reply)
+		if ul, ok := sent.CallDirect(300); !ok {
+			em.Emit(core.Result{Case: id, Class: "sentinel", Verdict: core.Violated, Key: "C03/sentinel-not-served",
+				Msg: fmt.Sprintf("with the hostile sessions of batch %d still connected the administrator sentinel got no reply to get-user-name-list", batch)})
+			return
+		} else {
+			for _, d := range ul.GetAll(300) {
+				if len(d) < 2 {
+					continue
+				}
+				if _, ok := sent.CallDirect(303, rc.F(103, d[:2])); !ok {
+					em.Emit(core.Result{Case: id, Class: "sentinel", Verdict: core.Violated, Key: "C03/sentinel-not-served",
+						Replay: map[string]any{"hostile_streams_hex": hexAll(streams)},
+						Msg:    fmt.Sprintf("with the hostile sessions of batch %d still connected the administrator sentinel got no reply to get-client-info for listed user id %x (record %x); recovered handler panics so far: %d", batch, d[:2], d, srv.Panics.Load())})
+					return
+				}
+				infoProbes++
+			}
+		}
+		// ... and reads everything a hostile session may have written to: the message board, the news, the file lists
+		type probe struct {
+			what string
+			typ  int
+			fs   []rc.Field
+		}
+		probes := []probe{{"message board", 101, nil}, {"news categories", 370, nil}, {"news article list", 371, []rc.Field{rc.F(325, rc.PathS("cat"))}},
+			{"file list of the root", 200, nil}, {"file list of Uploads", 200, []rc.Field{rc.F(202, rc.PathS("Uploads"))}}, {"file list of public", 200, []rc.Field{rc.F(202, rc.PathS("public"))}}}
+		for k := 1; k <= 3; k++ {
+			probes = append(probes, probe{fmt.Sprintf("news article %d", k), 400, []rc.Field{rc.F(325, rc.PathS("cat")), rc.F(326, rc.U32(k)), rc.FS(327, "text/plain")}})
+		}
+		for _, p := range probes {
+			if _, ok := sent.CallDirect(p.typ, p.fs...); !ok {
+				em.Emit(core.Result{Case: id, Class: "sentinel", Verdict: core.Violated, Key: "C03/sentinel-not-served",
+					Replay: map[string]any{"hostile_streams_hex": hexAll(streams)},
+					Msg:    fmt.Sprintf("with the hostile sessions of batch %d still connected the administrator sentinel got no reply to its request for the %s (type %d); recovered handler panics so far: %d", batch, p.what, p.typ, srv.Panics.Load())})
+				return
+			}
+			infoProbes++
+		}
+		for _, cl := range clients {
+			cl.Hangup()
+		}
 		// the sentinels must still be served: wait for the reply on the sentinel's own connection only (another
 		// connection's handler may legitimately still be busy)
 		direct := func(cl *refclient.Client, typ int) (rc.Tran, bool) {
@@ -996,7 +1040,8 @@ func runInproc(b core.Batch, a args, em *core.Emitter) {
 		for c := range classes {
 			res := core.Result{Case: id + "/" + c, Class: c, Verdict: core.Held}
 			if first {
-				res.Obs = map[string]int{"inprocess_hostile_connections": len(streams), "recovered_panics": int(srv.Panics.Load())}
+				res.Obs = map[string]int{"inprocess_hostile_connections": len(streams), "recovered_panics": int(srv.Panics.Load()), "client_info_probes_during_hostile_sessions": infoProbes}
+				infoProbes = 0
 				srv.Panics.Store(0)
 				first = false
 			}
@@ -1023,4 +1068,15 @@ func serverGoroutines() string {
 		keep = keep[:8]
 	}
 	return strings.Join(keep, "\n\n")
+}
+
+func hexAll(ss [][]byte) []string {
+	var out []string
+	for _, s := range ss {
+		if len(s) > 4000 {
+			s = s[:4000]
+		}
+		out = append(out, fmt.Sprintf("%x", s))
+	}
+	return out
 }
